@@ -13,8 +13,8 @@ Monitors
   bulk_vs_single   propagateBulk(times, x)[..., i] == propagate(times[0], times[i+1], x)
   bulk_degenerate  grids with repeated output times / zero span behave like the separate calls (same states, or the
                    same ValueError that propagate gives) - never a silently wrong state
-  event_restart    a terminal event that changes nothing (zero impulse) at te leaves propagate / propagateBulk unchanged
-                   (exercises the solve_ivp restart loop of celestial.py)
+  event_restart    a terminal event that changes nothing (zero impulse) at te leaves propagate / propagateBulk unchanged;
+                   with an impulse dv it equals Phi(te->t2)(Phi(t0->te)(x)+dv) (exercises the solve_ivp restart loop)
   epoch_resplit    SpecialPerturbations(jd0 + s/86400).propagate(t0 - s, t2 - s) == SpecialPerturbations(jd0).propagate(t0, t2)
   sp_*             compose / batch / bulk / event relations on SpecialPerturbations
   sp_reduces       SpecialPerturbations with degree = order = 0 and no perturbation == closed-form Kepler
@@ -71,21 +71,34 @@ RTOL, ATOL = 1e-10, 1e-12
 S0 = 0.05  # revolutions: start-up floor of the accumulated-error model
 MU = K.MU
 METHODS = ("RK45", "DOP853")
-HANG_S = 240
+HANG_S = 240  # seconds; run() lowers it to 100 in the quick tier (largest legitimate quick call: ~2 s)
 
-# Allowed multiples of the error unit.  Calibration on the unchanged tree (seed 0..3 thorough-sized sweeps,
-# see worst_ratio_* in the evidence): worst observed ratio -> allowed
+# Allowed multiples of the error unit = 100 x (worst ratio seen on the unchanged tree, rounded up).  Calibration: four
+# thorough-sized sweeps (seeds 0..3 and separate streams), 1.2e5 two-body and 6e3 SP cases, 4e5 compared states:
+#   monitor            worst observed    allowed
+#   kepler_exact            49.4           5000      (RK45 dominates; DOP853 stays below 8)
+#   sp_reduces              45.9           5000
+#   energy                  13.6           1500
+#   angmom                   2.13           250
+#   universal               12.0           1500
+#   compose                  9.6 (sp 8.7)  1000
+#   batch_vs_single         17.2 (sp 9.1)  2000      (on top of the 2*sqrt(K) share of the RMS error norm)
+#   bulk_vs_single           5.1 (sp 5.9)   600
+#   event_restart           11.4 (sp 14.7) 1500
+#   epoch_resplit            8.6           1000
+# e.g. kepler_exact allows 3.9 m after one LEO revolution and 0.9 km after a day (16 rev) where 8e-4 km is observed;
+# a wrong stride, a wrong epoch origin, a dropped restart or rtol = 1e-6 are 1e4 .. 1e9 units.
 TOL = {
-    "kepler_exact": 2000.0,
-    "sp_reduces": 2000.0,
-    "energy": 2000.0,
-    "angmom": 2000.0,
-    "universal": 2000.0,
-    "compose": 2000.0,
+    "kepler_exact": 5000.0,
+    "sp_reduces": 5000.0,
+    "energy": 1500.0,
+    "angmom": 250.0,
+    "universal": 1500.0,
+    "compose": 1000.0,
     "batch_vs_single": 2000.0,
-    "bulk_vs_single": 2000.0,
-    "event_restart": 2000.0,
-    "epoch_resplit": 2000.0,
+    "bulk_vs_single": 600.0,
+    "event_restart": 1500.0,
+    "epoch_resplit": 1000.0,
 }
 
 
@@ -176,19 +189,22 @@ def _dyn(spec: dict):
     return d
 
 
-def _null_event(te):
-    """A terminal ScheduledImpulse (repository root function) whose state change is zero."""
+def _null_event(te, dv=None):
+    """A terminal ScheduledImpulse (repository root function); its state change is zero unless dv (ECI, km/s) is given.
+
+    Same behaviour as the repository's ScheduledECIImpulse without the EventStack log record (needs the key-value store).
+    """
     global _NULL_EVENT
     _init()
     if _NULL_EVENT is None:
         from resonaate.dynamics.integration_events.scheduled_impulse import ScheduledImpulse
 
-        class NullImpulse(ScheduledImpulse):
+        class PlainImpulse(ScheduledImpulse):
             def getStateChange(self, time, state):  # noqa: N802, ARG002
-                return np.zeros(6)
+                return self.thrust.copy()
 
-        _NULL_EVENT = NullImpulse
-    return _NULL_EVENT(te, np.zeros(3), 0)
+        _NULL_EVENT = PlainImpulse
+    return _NULL_EVENT(te, np.zeros(3) if dv is None else np.asarray(dv, dtype=float), 0)
 
 
 def _times(ts, ttype):
@@ -300,7 +316,7 @@ def rel_constants(ctx):
         ctx.check(cls.RELATIVE_TOL == RTOL and cls.ABSOLUTE_TOL == ATOL, "integrator-tolerance-constants",
                   f"{cls.__name__}.RELATIVE_TOL/ABSOLUTE_TOL = {cls.RELATIVE_TOL}/{cls.ABSOLUTE_TOL}, documented 1e-10/1e-12", w,
                   mon="tol_constants")
-    ctx.check(abs(Earth.mu - MU) <= 1e-9 * MU, "earth-mu", f"Earth.mu = {Earth.mu} differs from the reference {MU}", w, mon="tol_constants")
+    ctx.check(Earth.mu == MU, "earth-mu", f"Earth.mu = {Earth.mu} differs from the reference {MU}", w, mon="tol_constants")
 
 
 def rel_kepler(ctx, spec, x0, t0, t2, ttype="float"):
@@ -499,21 +515,31 @@ def rel_bulk_degenerate(ctx, spec, x0, times, how):
     return True
 
 
-def rel_event(ctx, spec, x0, t0, te, t2, ttype="float"):
-    """A terminal event that changes nothing must not change the result of propagate."""
+def rel_event(ctx, spec, x0, t0, te, t2, ttype="float", dv=None):
+    """A terminal event at te: zero change -> same result as without; impulse dv -> same as the manual composition
+    Phi(te->t2)(Phi(t0->te)(x) + dv) done with event-free propagate calls."""
     x0 = np.asarray(x0, dtype=float)
-    w = _w("event", spec=spec, x0=x0, t0=t0, te=te, t2=t2, ttype=ttype)
+    w = _w("event", spec=spec, x0=x0, t0=t0, te=te, t2=t2, ttype=ttype, dv=None if dv is None else list(dv))
     mon, p = _mon(spec, "event_restart"), _pfx(spec)
-    y = _propagate(ctx, spec, t0, t2, x0, p + "event", w, mon, ttype)
-    ye = _propagate(ctx, spec, t0, t2, x0, p + "event", w, mon, ttype, events=[_null_event(te)])
+    ye = _propagate(ctx, spec, t0, t2, x0, p + "event", w, mon, ttype, events=[_null_event(te, dv)])
+    if dv is None:
+        y = _propagate(ctx, spec, t0, t2, x0, p + "event", w, mon, ttype)
+    else:
+        y = _propagate(ctx, spec, t0, te, x0, p + "event", w, mon, ttype)
+        if y is not None:
+            y = _propagate(ctx, spec, te, t2, y + np.concatenate([np.zeros(3), np.asarray(dv, dtype=float)]), p + "event", w, mon, ttype)
     if y is None or ye is None:
         return False
-    if not ctx.check(ye.shape == (6,), p + "event-shape", f"propagate with a no-op event returned shape {ye.shape}", w, mon=mon):
+    if not ctx.check(ye.shape == (6,), p + "event-shape", f"propagate with a terminal event returned shape {ye.shape}", w, mon=mon):
         return True
     ur, uv, nrev, e = _unit(x0, t2 - t0, dense=True, spec=spec)
     r = _ratio(ye, y, 2 * ur, 2 * uv)
-    _close(ctx, "event_restart", r, p + "event-restart-differs", f"{spec['method']} propagate over {t2 - t0:.6g} s with a no-op terminal event at t0+{te - t0:.6g} s "
-           f"differs from the uninterrupted propagation by {np.linalg.norm(ye[:3] - y[:3]):.3e} km", w, mon)
+    if dv is None:
+        _close(ctx, "event_restart", r, p + "event-restart-differs", f"{spec['method']} propagate over {t2 - t0:.6g} s with a no-op terminal event at t0+{te - t0:.6g} s "
+               f"differs from the uninterrupted propagation by {np.linalg.norm(ye[:3] - y[:3]):.3e} km", w, mon)
+    else:
+        _close(ctx, "event_restart", r, p + "event-impulse-composition", f"{spec['method']} propagate over {t2 - t0:.6g} s with an impulse {list(dv)} km/s at t0+{te - t0:.6g} s "
+               f"differs from Phi(te->t2)(Phi(t0->te)(x)+dv) by {np.linalg.norm(ye[:3] - y[:3]):.3e} km", w, mon)
     return True
 
 
@@ -754,9 +780,12 @@ def _tb_case(ctx, rng, i):
         te = t0 + (t2 - t0) * rng.uniform(0.02, 0.98)
         if rng.random() < 0.4 and math.floor(te) > t0:
             te = float(math.floor(te))
-        done = rel_event(ctx, spec, x0, t0, te, t2, ttype)
-        key = (rel, spec["method"], _rnd(x0), t0, te, t2)
-        smp = {"relation": "no-op terminal event", "method": spec["method"], "x0": _rnd(x0), "t0": t0, "te-t0": te - t0, "dt": t2 - t0}
+        dv = None
+        if rng.random() < 0.5:
+            dv = [rng.gauss(0, 1) * 10 ** rng.uniform(-5, -2) for _ in range(3)]
+        done = rel_event(ctx, spec, x0, t0, te, t2, ttype, dv)
+        key = (rel, spec["method"], _rnd(x0), t0, te, t2, dv is None)
+        smp = {"relation": "terminal event (no-op)" if dv is None else "terminal event (impulse) vs manual composition", "method": spec["method"], "x0": _rnd(x0), "t0": t0, "te-t0": te - t0, "dt": t2 - t0}
     else:  # degenerate grids
         dt = float(rng.choice([1, 60, 300, rng.randrange(2, 3600)]))
         t2 = _end(t0, dt)
@@ -787,7 +816,7 @@ def _sp_case(ctx, rng, i):
         dt = float(rng.choice([60, 300, 600, 1800, 3600, rng.randrange(20, 7200), rng.randrange(20, 7200)]))
         dt = min(dt, (1.0 if spec["deg"] <= 4 else 0.3) * per)  # cost ~ revolutions x degree^2
         if rng.random() < 0.03 and spec["deg"] <= 4 and rel in ("epoch", "compose", "reduces"):
-            dt = rng.choice([21600.0, 43200.0, 86400.0])
+            dt = rng.choice([21600.0, 43200.0, 86400.0]) if spec["method"] == "DOP853" else rng.choice([7200.0, 21600.0])
     dt = max(dt, 20.0)
     t2 = _end(t0, dt)
     done = False
@@ -796,6 +825,9 @@ def _sp_case(ctx, rng, i):
         if s > 0:  # scenario times stay >= 0 on both sides (elapsed seconds are never negative in the repository)
             t0, t2 = t0 + s, _end(t0 + s, dt)
         done = rel_epoch(ctx, spec, x0, t0, t2, s)
+        if spec["ord"] == 0 and not spec["third"] and not spec["srp"]:
+            done = False  # zonal-only field: the force does not depend on the Earth's rotation angle -> trivial
+            ctx.count("epoch_cases_insensitive")
         key = (rel, json.dumps(spec, sort_keys=True), _rnd(x0), t0, t2, s)
         smp = {"relation": "epoch re-split", "spec": spec, "shift_s": s, "x0": _rnd(x0), "t0": t0, "dt": dt}
     elif rel == "compose":
@@ -836,11 +868,13 @@ def _sp_case(ctx, rng, i):
 
 
 def run(ctx):
+    global HANG_S
     _init()
+    HANG_S = 100 if ctx.quick else 240
     rng = ctx.pyrng("c03")
     rel_constants(ctx)
-    n_tb = ctx.scale(640, 24_000)
-    n_sp = ctx.scale(64, 1_600)
+    n_tb = ctx.scale(1200, 20_000)
+    n_sp = ctx.scale(80, 1_500)
     budget0 = ctx.time_left()
     # interleave so that both families are reached whatever the wall budget: one SP case every n_tb/n_sp two-body cases
     every = max(1, n_tb // n_sp)
@@ -882,6 +916,6 @@ def replay(ctx, w):
     elif k == "bulk_degenerate":
         rel_bulk_degenerate(ctx, w["spec"], w["x0"], w["times"], w.get("how", ""))
     elif k == "event":
-        rel_event(ctx, w["spec"], w["x0"], w["t0"], w["te"], w["t2"], w.get("ttype", "float"))
+        rel_event(ctx, w["spec"], w["x0"], w["t0"], w["te"], w["t2"], w.get("ttype", "float"), w.get("dv"))
     elif k == "epoch":
         rel_epoch(ctx, w["spec"], w["x0"], w["t0"], w["t2"], w["shift_s"])
